@@ -5,6 +5,7 @@ import (
 	"encoding/json"
 	"errors"
 	"fmt"
+	"github.com/nyaruka/gocommon/dates"
 	"io"
 	"net/http"
 	"strings"
@@ -150,6 +151,8 @@ type Root struct {
 	Env     J        `json:"env,omitempty"`
 	Opt     Options  `json:"opt"`
 	Step    int64    `json:"clock_step_ns,omitempty"` // clock step override; -1 = zero step
+	// ClockZone, if set, is the zone the host's clock reports its instants in (default UTC)
+	ClockZone string `json:"clock_zone,omitempty"`
 	// DrawMenu overrides the menu of random draws
 	DrawMenu []float64 `json:"draw_menu,omitempty"`
 	// MsgURN is the URN incoming messages come from (default tel:+12065551212); Parent overrides the
@@ -302,6 +305,18 @@ func (r *Root) Start(first Step) (*Exec, error) {
 		x.Draws = ResetWithStep(0)
 	default:
 		x.Draws = ResetWithStep(time.Duration(r.Step))
+	}
+	if r.ClockZone != "" {
+		// the same instants, reported by the host's clock in a zone other than UTC
+		if loc, err := time.LoadLocation(r.ClockZone); err == nil {
+			step := ClockStep
+			if r.Step < 0 {
+				step = 0
+			} else if r.Step > 0 {
+				step = time.Duration(r.Step)
+			}
+			dates.SetNowFunc(dates.NewSequentialNow(ClockStart.In(loc), step))
+		}
 	}
 	if r.DrawMenu != nil {
 		x.Draws.Menu = r.DrawMenu
